@@ -15,6 +15,7 @@
  */
 #pragma once
 
+#include <unifex/detail/verif_hooks.hpp>
 #include <unifex/config.hpp>
 #include <unifex/bind_back.hpp>
 #include <unifex/continuations.hpp>
@@ -333,6 +334,7 @@ private:
           if (!stream_.cleanupReady_.load(std::memory_order_acquire)) {
             stream_.cleanupOperation_ = this;
             stream_.stopSource_.request_stop();
+            UNIFEX_VERIF_POINT(391);
             if (!stream_.cleanupReady_.exchange(
                     true, std::memory_order_acq_rel)) {
               // The trigger cleanup is not yet ready to run.
@@ -361,6 +363,7 @@ private:
 
         void source_cleanup_done() noexcept {
           if (!cleanupCompleted_.load(std::memory_order_acquire)) {
+            UNIFEX_VERIF_POINT(393);
             if (!cleanupCompleted_.exchange(true, std::memory_order_acq_rel)) {
               // We were first to register completion of the cleanup op.
               // Let the other operation call the final receiver.
@@ -380,6 +383,7 @@ private:
           sourceError_ = std::move(ex);
 
           if (!cleanupCompleted_.load(std::memory_order_acquire)) {
+            UNIFEX_VERIF_POINT(394);
             if (!cleanupCompleted_.exchange(true, std::memory_order_acq_rel)) {
               // trigger cleanup not yet finished.
               // let the trigger_receiver call the final receiver.
@@ -395,6 +399,7 @@ private:
 
         void trigger_cleanup_done() noexcept {
           if (!cleanupCompleted_.load(std::memory_order_acquire)) {
+            UNIFEX_VERIF_POINT(395);
             if (!cleanupCompleted_.exchange(true, std::memory_order_acq_rel)) {
               // We were first to register completion of the cleanup op.
               // Let the other operation call the final receiver.
@@ -414,6 +419,7 @@ private:
           triggerError_ = std::move(ex);
 
           if (!cleanupCompleted_.load(std::memory_order_acquire)) {
+            UNIFEX_VERIF_POINT(396);
             if (!cleanupCompleted_.exchange(true, std::memory_order_acq_rel)) {
               // source cleanup not yet finished.
               // let the source_receiver call the final receiver.
@@ -454,6 +460,7 @@ private:
   void trigger_next_done() noexcept {
     if (!cleanupReady_.load(std::memory_order_acquire)) {
       stopSource_.request_stop();
+      UNIFEX_VERIF_POINT(392);
       if (!cleanupReady_.exchange(true, std::memory_order_acq_rel)) {
         // Successfully registered completion of next(trigger)
         // before someone called cleanup(stream). We have passed
